@@ -450,8 +450,26 @@ type histKnobs struct {
 	nops                                              int
 }
 
+// longHistories (thorough tier): a share of histories is 120-400 operations long over small
+// programs, for leaks that need many assemblies to show (cache eviction, counters, growth).
+var longHistories = false
+
 func genHistory(seed uint64, variant string, pool []*PoolProg, admitted []int) *RunSpec {
 	r := NewRNG(seed)
+	long := longHistories && r.Chance(1, 12)
+	if long {
+		var small []int
+		for _, ix := range admitted {
+			if len(pool[ix].Src) < 2500 && (pool[ix].Ref[variant] == nil || pool[ix].Ref[variant].Len < 8192) {
+				small = append(small, ix)
+			}
+		}
+		if len(small) >= 3 {
+			admitted = small
+		} else {
+			long = false
+		}
+	}
 	sim := variant == "sim"
 	spec := &RunSpec{Variant: variant, Seed: seed, InitSeed: r.U64() % 1000000007}
 	spec.Env = drawProcEnv(r, !sim)
@@ -516,6 +534,10 @@ func genHistory(seed uint64, variant string, pool []*PoolProg, admitted []int) *
 	ws := []int{0, 1, 2, 4}
 	k := histKnobs{wParse: pick(r, ws) + 1, wExec: pick(r, ws) + 1, wReexec: pick(r, ws), wClock: pick(r, ws), wGc: pick(r, ws), wLog: pick(r, ws), wSweep: pick(r, ws),
 		pPrefill: pick(r, []int{0, 30, 60, 90}), clockScale: r.Intn(5), nops: pick(r, []int{4, 8, 15, 25, 40})}
+	if long {
+		k.nops = pick(r, []int{120, 200, 400})
+		k.wExec, k.wReexec = k.wExec+2, k.wReexec+1
+	}
 	if !sim {
 		k.wClock = 0
 	}
